@@ -75,8 +75,9 @@ type LitAssert struct {
 	Type   string
 	Ord    int
 	Clause *Clause
-	Node   *ast.CompositeLit
+	Node   ast.Expr // *ast.CompositeLit, or *ast.CallExpr for a call assertion
 	LitID  *ast.Ident
+	Call   bool // `callassert FUN N EXPR`: assertion evaluated right before the N-th call written FUN(...)
 }
 
 func (c *Contract) primary() string {
@@ -359,13 +360,16 @@ func parseContractsData(data []byte, file string, pkgPath string) ([]*Contract, 
 				return nil, fmt.Errorf("%s:%d: %v", file, ln+1, err)
 			}
 			parsedFolds[pkgPath] = append(parsedFolds[pkgPath], fd)
-		case "litassert":
+		case "litassert", "callassert":
 			f := strings.SplitN(rest, " ", 3)
-			n, err := strconv.Atoi(f[1])
-			if len(f) != 3 || err != nil {
-				return nil, fmt.Errorf("%s:%d: litassert TYPE N EXPR", file, ln+1)
+			if len(f) != 3 {
+				return nil, fmt.Errorf("%s:%d: %s NAME N EXPR", file, ln+1, kw)
 			}
-			cur.LitAsserts = append(cur.LitAsserts, &LitAssert{Type: f[0], Ord: n, Clause: &Clause{Kind: "litassert", Prop: prop, Text: f[2], Line: ln + 1}})
+			n, err := strconv.Atoi(f[1])
+			if err != nil {
+				return nil, fmt.Errorf("%s:%d: %s NAME N EXPR", file, ln+1, kw)
+			}
+			cur.LitAsserts = append(cur.LitAsserts, &LitAssert{Type: f[0], Ord: n, Call: kw == "callassert", Clause: &Clause{Kind: kw, Prop: prop, Text: f[2], Line: ln + 1}})
 		case "cases":
 			// proof by cases for the loop's preservation obligations: `cases c1; c2; ...` is one dimension (the implicit
 			// last case is "none of them"); several `cases` lines multiply. Conditions are evaluated at the start of the body.
